@@ -123,8 +123,18 @@ def gen_table(rng, big=False):
     for j in range(rng.choice([0, 1, 1, 2])):
         k = rng.sample([c["name"] for c in cols], min(len(cols), rng.choice([1, 1, 2])))
         indexes.append({"name": "ix_%s_%d" % (name[:6], j), "cols": k, "unique": rng.random() < 0.2})
+    # columns declared with a schema type carrying a named CHECK: Boolean / Enum(create_constraint=True, name=...)
+    stypes = {}
+    if rng.random() < 0.35:
+        for cname, kind, ty, text in (("flag", "bool", "BOOLEAN", "flag IN (0, 1)"), ("status", "enum", "VARCHAR(1)", "status IN ('a', 'b')")):
+            if rng.random() < 0.6:
+                cols.append({"name": cname, "ty": ty, "nullable": rng.random() < 0.7, "default": None, "aff": aff_of_token(ty),
+                             "dval": None, "pk": False})
+                cn = "ck_%s_%s" % (name[:8], cname)
+                checks.append({"name": cn, "text": text, "mentions": [cname], "pred": None})
+                stypes[cname] = {"kind": kind, "const": cn}
     t = {"name": name, "cols": cols, "pk": pk, "uniques": uniques, "checks": checks, "fks": fks, "indexes": indexes,
-         "rows": []}
+         "rows": [], "stypes": stypes}
     t["rows"] = gen_rows(rng, t, rng.choice([0, 1, 2, 3, 4, 6] if not big else [0, 3, 8, 20]))
     return t
 
@@ -143,7 +153,10 @@ def gen_rows(rng, t, n):
         for c in t["cols"]:
             in_check = any(c["name"] == k["pred"]["col"] for k in t["checks"] if k["pred"])
             in_u = any(c["name"] in u for u in ucols)
-            if c["name"] == "id" and c["pk"]:
+            if c["name"] in t.get("stypes", {}):
+                st = t["stypes"][c["name"]]
+                v = None if (c["nullable"] and rng.random() < 0.25) else ({"i": rng.choice([0, 1])} if st["kind"] == "bool" else {"t": rng.choice(["a", "b"])})
+            elif c["name"] == "id" and c["pk"]:
                 v = {"i": len(rows) + 1} if c["ty"] == "INTEGER" else {"t": "k%d" % (len(rows) + 1)}
             elif c["nullable"] and rng.random() < 0.25:
                 v = None
@@ -187,7 +200,10 @@ def gen_ops(rng, t, n=None, wild=0.08):
     idx0 = {c["name"]: i for i, c in enumerate(t["cols"])}
     has_null = {c["name"]: any(r[idx0[c["name"]]] is None for r in t["rows"]) for c in t["cols"]}
     all_int = {c["name"]: all(r[idx0[c["name"]]] is None or "i" in r[idx0[c["name"]]] for r in t["rows"]) for c in t["cols"]}
+    stypes = dict(t.get("stypes", {}))             # current name -> {"kind", "const"} (while the CHECK is still there)
     n = n or rng.choice([1, 1, 2, 2, 3, 4])
+    if stypes and rng.random() < 0.5:
+        n = max(n, 2)
     kinds = ["add_column"] * 5 + ["drop_column"] * 3 + ["alter_column"] * 5 + ["add_unique", "add_check", "add_fk",
              "drop_constraint", "drop_constraint", "create_index", "create_index", "drop_index", "add_pk"]
     added = []
@@ -223,12 +239,26 @@ def gen_ops(rng, t, n=None, wild=0.08):
             if rng.random() < wild:
                 ops.append({"op": "drop_column", "name": "nope"})
                 continue
-            ops.append({"op": "drop_column", "name": key[c]})
+            o = {"op": "drop_column", "name": key[c]}
+            if c in stypes and rng.random() < 0.8:   # autogenerate passes existing_type= on drop_column as well
+                o["existing_type_const"], o["existing_type_kind"] = stypes[c]["const"], stypes[c]["kind"]
+                stypes.pop(c)
+            ops.append(o)
             cur.remove(c)
         elif k == "alter_column" and cur:
             c = rng.choice(cur)
+            sc = [x for x in cur if x in stypes]
+            if sc and rng.random() < 0.6:
+                c = rng.choice(sc)
             o = {"op": "alter_column", "name": key[c], "new_name": None, "type": None, "nullable": None, "default": None}
             what = rng.choice(["rename", "type", "nullable", "default", "rename+type", "type"])
+            if c in stypes:
+                # autogenerate-style call: existing_type= the schema type with its named CHECK; mostly attribute-only changes
+                what = rng.choice(["nullable", "nullable", "default", "comment", "rename", "type", "rename+type"])
+                if rng.random() < 0.85 or "type" in what:
+                    o["existing_type_const"], o["existing_type_kind"] = stypes[c]["const"], stypes[c]["kind"]
+                if what == "comment":
+                    o["comment"] = "a comment"
             if "rename" in what:
                 nn = c + "_r"
                 if rng.random() < 0.06 and len(cur) > 1:
@@ -245,7 +275,11 @@ def gen_ops(rng, t, n=None, wild=0.08):
                 f = family(tys.get(c, "INTEGER"))
                 o["default"] = {"set": rng.choice(DEFAULTS.get(f, ["0"]) + [None])}
             ops.append(o)
+            if c in stypes and o.get("existing_type_const") and (o["new_name"] or o["type"]):
+                stypes.pop(c)      # the CHECK is gone from named_constraints now
             if o["new_name"] and o["new_name"] not in cur:
+                if c in stypes:
+                    stypes[o["new_name"]] = stypes.pop(c)
                 if c in checked:
                     checked.add(o["new_name"])
                 if c in retyped:
